@@ -537,6 +537,10 @@ func (env *SpecEnv) evalBinary(e *Expr) TV {
 			t = env.contentEq(fa, fb)
 		} else if oka != okb {
 			sfail("bytes(..) compared with a non-content value: %s", e)
+		} else if ia, pb, ok := ifaceAndPointer(a, b); ok {
+			// an interface value compared with a pointer: same dynamic type and same object
+			// (a nil pointer in an interface is not the nil interface, as in Go)
+			t = and(eq(ia.Tag, env.fc.eng.typeTag(pb.T)), eq(ia.Ref, pb.V.(PtrV).Ref))
 		} else {
 			if a.T != nil && b.T != nil && !types.Identical(a.T.Underlying(), b.T.Underlying()) &&
 				!(isInt(a.T) && isInt(b.T) && intWidth(a.T) == intWidth(b.T)) && !isUntypedNil(a.T) && !isUntypedNil(b.T) {
@@ -1169,4 +1173,32 @@ func (env *SpecEnv) revealSpec(e *Expr) string {
 	tr.Opaque = false
 	bodyTV := env.applySpec(&tr, e.X[1:])
 	return eqVal(appTV.T, appTV.V, bodyTV.V)
+}
+
+// ifaceAndPointer recognises "interface == pointer" (either order) in a contract expression.
+func ifaceAndPointer(a, b TV) (IfaceV, TV, bool) {
+	if a.T == nil || b.T == nil {
+		return IfaceV{}, TV{}, false
+	}
+	pick := func(i, p TV) (IfaceV, TV, bool) {
+		iv, ok := i.V.(IfaceV)
+		if !ok {
+			return IfaceV{}, TV{}, false
+		}
+		if _, isI := i.T.Underlying().(*types.Interface); !isI {
+			return IfaceV{}, TV{}, false
+		}
+		pv, ok := p.V.(PtrV)
+		if !ok || pv.Kind != PObj || len(pv.Path) != 0 {
+			return IfaceV{}, TV{}, false
+		}
+		if _, isP := p.T.Underlying().(*types.Pointer); !isP {
+			return IfaceV{}, TV{}, false
+		}
+		return iv, p, true
+	}
+	if iv, p, ok := pick(a, b); ok {
+		return iv, p, true
+	}
+	return pick(b, a)
 }
